@@ -273,6 +273,8 @@ def main(tier, seed):
                       dict(kind='correspondence', name='corr.C13', log=logs[:3]), no_input=True)
     import r9
     r9.c13_self_view_assignment(rep, algopy, rng, tier)
+    import r10
+    r10.c13_fft_out_buffers(rep, algopy, rng, tier)
     return rep.finish()
 
 
